@@ -100,6 +100,20 @@ theorem tie_dropDatabaseAssignment :
     Generated.C18.dropDatabaseAssignmentCalls = ["constants.GetShardAssignPath", "repo.Delete"] := by
   decide
 
+/-- a master that takes over starts empty: `newStorageCluster` wraps `models.NewStorageState()` and
+makes no repository call; `NewStateManager` builds fresh maps; `StateMachineFactory.Start` lists
+live nodes, then database configs, then shard assignments (the order of `repoEvents`). -/
+theorem tie_failover_start :
+    Generated.C18.newStorageClusterCalls = ["logger.GetLogger", "models.NewStorageState", "log.Info"] ∧
+    Generated.C18.newStorageClusterShape = ["assign log = call logger.GetLogger",
+      "assign cluster = &storageCluster{…}", "call log.Info", "return cluster"] ∧
+    Generated.C18.newStateManagerCalls = ["context.WithCancel", "newStorageCluster", "make", "make",
+      "newReplicaLeaderElector", "make", "atomic.NewBool", "metrics.NewStateManagerStatistics",
+      "metrics.NewShardLeaderStatistics", "logger.GetLogger", "mgr.consumeEvent"] ∧
+    Generated.C18.factoryStartOrder = ["f.createStorageNodeStateMachine", "f.createDatabaseConfigStateMachine",
+      "f.createShardAssignmentStateMachine", "f.createDatabaseLimitsStateMachine"] := by
+  decide
+
 /-! ## 2. Every shard gets exactly `rf` distinct nodes of the live list -/
 
 /-- what the property demands of one shard's replica list -/
@@ -488,6 +502,75 @@ example :
     q.queue = [] ∧ q.emitted.length = 3 ∧
       q.st.shards = [(0, [(0, { state := stOffline, leader := -1, replicas := [1] })])] := by
   decide
+
+/-! ## 8. Master fail-over and watch interleavings -/
+
+/-- what a master reports after taking over is a function of the repository alone: whatever the
+previous master held (dead nodes it still believed alive, dropped databases, leaders) is gone -/
+theorem failover_depends_only_on_repo (old old' : St) (r : Repo) : failover old r = failover old' r := rfl
+
+/-- after a fail-over exactly the nodes registered in the repository are live — a node that died
+while no master was watching is not live, whatever the old master thought -/
+theorem failover_live (old : St) (r : Repo) (n : Nat) : n ∈ (failover old r).live ↔ n ∈ r.live := by
+  unfold failover repoEvents
+  rw [run_append, run_append]
+  rw [mem_live_run_nonnode n _ _ (by
+    intro e he id
+    obtain ⟨p, _, rfl⟩ := List.mem_map.mp he
+    exact fun h => Key.noConfusion h)]
+  rw [mem_live_run_nonnode n _ _ (by
+    intro e he id
+    obtain ⟨p, _, rfl⟩ := List.mem_map.mp he
+    exact fun h => Key.noConfusion h)]
+  rw [mem_live_run_nodeUps]
+  simp [St.init]
+
+/-- all C18 invariants hold after a fail-over and after any events that follow it -/
+theorem failover_then_churn (old : St) (r : Repo) (hr : ∀ p ∈ r.asgs, (Map.keys p.2).Nodup)
+    (es : List Event) (hw : ∀ e ∈ es, WellFormed e) :
+    Inv (run (failover old r) es) ∧
+    run (failover old r) es = run St.init (repoEvents r ++ es) := by
+  have hwr : ∀ e ∈ repoEvents r ++ es, WellFormed e := by
+    intro e he
+    rcases List.mem_append.mp he with h | h
+    · unfold repoEvents at h
+      rcases List.mem_append.mp h with h1 | h1
+      · rcases List.mem_append.mp h1 with h2 | h2
+        · obtain ⟨x, _, rfl⟩ := List.mem_map.mp h2; trivial
+        · obtain ⟨x, _, rfl⟩ := List.mem_map.mp h2; trivial
+      · obtain ⟨p, hp, rfl⟩ := List.mem_map.mp h1
+        exact hr p hp
+    · exact hw e h
+  have heq : run (failover old r) es = run St.init (repoEvents r ++ es) := by
+    unfold failover; rw [run_append]
+  exact ⟨heq ▸ inv_reachable _ hwr, heq⟩
+
+/-- The etcd watches deliver each key's events in order and different keys' events in an arbitrary
+interleaving. Every delivery order `es` is covered: the invariant holds for it, and the live set is
+determined by the per-key streams alone — two delivery orders with the same stream for node `n`'s
+key agree on whether `n` is live, however the streams are interleaved. -/
+theorem watch_interleavings (es es' : List Event) (hw : ∀ e ∈ es, WellFormed e) (hw' : ∀ e ∈ es', WellFormed e) :
+    Inv (run St.init es) ∧ Inv (run St.init es') ∧
+    ∀ n, streamOf (.node n) es = streamOf (.node n) es' →
+      (n ∈ (run St.init es).live ↔ n ∈ (run St.init es').live) := by
+  refine ⟨inv_reachable es hw, inv_reachable es' hw', ?_⟩
+  intro n hs
+  rw [live_is_event_history, live_is_event_history, aliveAfter_streamOf n es, aliveAfter_streamOf n es', hs]
+
+/-- non-vacuity: the old master believed node 1 alive and led by it; node 1 died during the outage -/
+example :
+    let old := run St.init [.nodeUp 1, .nodeUp 2, .dbCfg 0, .assignChanged 0 [(0, [1, 2])]]
+    let new := failover old { live := [2], cfgs := [0], asgs := [(0, [(0, [1, 2])])] }
+    old.shards = [(0, [(0, { state := stOnline, leader := 1, replicas := [1, 2] })])] ∧
+    new.shards = [(0, [(0, { state := stOnline, leader := 2, replicas := [1, 2] })])] ∧ new.live = [2] := by
+  decide
+
+/-- non-vacuity: two interleavings of the same per-key streams (assignment before / after the
+node events) — same live set, different but both valid shard states -/
+example :
+    streamOf (.node 1) [Event.nodeUp 1, .assignChanged 0 [(0, [1])], .nodeDown 1]
+      = streamOf (.node 1) [Event.assignChanged 0 [(0, [1])], .nodeUp 1, .nodeDown 1] := by
+  rfl
 
 /-! ## Non-vacuity -/
 
